@@ -73,6 +73,69 @@ fn spec(cfg: Config, sender: Side, depth: usize, devs: usize) -> SeqSpec {
     SeqSpec { cfg, prefix, max_depth: depth, max_devs: devs, alphabet, judge: judge_cats(&CATS), goal }
 }
 
+
+/// Unmerged sweep (state merging cannot see state hidden inside a backend's cipher object): all K messages are
+/// written, then delivered in order; before every genuine delivery two failing deliveries are made - every ordered
+/// pair from a list of ~22 (altered / stale / future / garbage / oversize messages and undersized buffers, into
+/// roomy, exactly payload-sized and in-between buffers) - and the genuine deliveries themselves use roomy,
+/// exactly payload-sized or in-between buffers. Every genuine delivery must still be accepted.
+fn after_rejection_sweep(ctx: &Ctx, cfg: &Config, sender: Side, label: &str) {
+    let proto = cfg.proto();
+    let recv = sender.peer();
+    let hs_written = (0..proto.n_msgs()).filter(|k| sess::writer(*k) == sender).count();
+    let mut pre = sess::handshake_ops(&proto, &[0, 0, 0, 0]);
+    pre.extend(sess::convert_ops(Mode::TT));
+    for j in 0..K {
+        pre.push(Op::TWrite { side: sender, plen: [3usize, 40, 4, 17][j % 4], cap: Cap::Roomy });
+    }
+    let wire = |j: usize| Msg::Wire(sender, hs_written + j);
+    let fails_for = |j: usize| -> Vec<Op> {
+        let mut v = vec![];
+        let alt = |a: Alter| Msg::Altered(Box::new(wire(j)), a);
+        for a in [Alter::FlipBit(9), Alter::FlipLast, Alter::TruncBy(1), Alter::Extend(1, 0)] {
+            for cap in [Cap::Roomy, Cap::NeedPlus(0), Cap::NeedPlus(5)] {
+                v.push(Op::TRead { side: recv, msg: alt(a.clone()), cap });
+            }
+        }
+        v.push(Op::TRead { side: recv, msg: wire(j), cap: Cap::NeedPlus(-1) });
+        v.push(Op::TRead { side: recv, msg: wire(j), cap: Cap::Exact(0) });
+        for len in [0usize, 15, 16, 40] {
+            v.push(Op::TRead { side: recv, msg: Msg::Garbage(len, 0x5a), cap: Cap::Roomy });
+        }
+        v.push(Op::TRead { side: recv, msg: Msg::Garbage(16, 0x33), cap: Cap::Exact(0) });
+        v.push(Op::TRead { side: recv, msg: Msg::Garbage(65536, 1), cap: Cap::Roomy });
+        if j > 0 {
+            v.push(Op::TRead { side: recv, msg: wire(j - 1), cap: Cap::NeedPlus(0) });
+        }
+        if j + 1 < K {
+            v.push(Op::TRead { side: recv, msg: wire(j + 1), cap: Cap::NeedPlus(0) });
+        }
+        v
+    };
+    let n_f = fails_for(1).len();
+    let policies: [[Cap; 2]; 3] = [[Cap::Roomy, Cap::Roomy], [Cap::NeedPlus(0), Cap::NeedPlus(0)], [Cap::NeedPlus(5), Cap::NeedPlus(0)]];
+    let jobs: Vec<(usize, usize, usize)> = (0..n_f).flat_map(|a| (0..n_f).flat_map(move |b| (0..3).map(move |p| (a, b, p)))).collect();
+    jobs.par_iter().for_each(|(a, b, pol)| {
+        let mut ops = pre.clone();
+        for j in 0..K {
+            let f = fails_for(j);
+            ops.push(f[a % f.len()].clone());
+            ops.push(f[b % f.len()].clone());
+            ops.push(Op::TRead { side: recv, msg: wire(j), cap: policies[*pol][j % 2].clone() });
+        }
+        let e = sess::run(cfg, &ops);
+        ctx.add(&ctx.evaluations, 1);
+        ctx.add(&ctx.transitions, e.steps.len() as u64);
+        ctx.add(&ctx.traces, 1);
+        ctx.add(&ctx.nontrivial, 1);
+        for m in sess::filter(&e, &CATS) {
+            ctx.violation(format!("{} (in-order deliveries each preceded by two rejected ones)", sess::signature(&e, m)), format!("{label}: {}", m.detail), sess::case_json(cfg, &ops[..=m.step.min(ops.len() - 1)]));
+            break;
+        }
+    });
+    ctx.count("after_rejection_sequences", jobs.len() as u64);
+}
+
 fn configs() -> Vec<(Config, Side, String)> {
     let mut v = vec![];
     for (c, b) in cipher_backends() {
@@ -97,7 +160,7 @@ pub fn run(tier: Tier) -> i32 {
     let ctx = Ctx::new("C05", tier, "model_checking");
     let (depth, devs) = if ctx.quick() { (7, 4) } else { (9, 5) };
     ctx.set_rule(format!(
-        "explicit-state BFS over receiver/sender call sequences (write, deliver any written message, flipped/truncated/extended/garbage/oversize deliveries, undersized buffers, set_receiving_nonce) up to depth {depth} with at most {devs} deviations from in-order delivery; each transition executes the calls on real snow TransportStates and on the nonce/provenance model; states merged on (model, nonces, cipher keys)"
+        "explicit-state BFS over receiver/sender call sequences (write, deliver any written message, flipped/truncated/extended/garbage/oversize deliveries, undersized buffers, set_receiving_nonce) up to depth {depth} with at most {devs} deviations from in-order delivery; each transition executes the calls on real snow TransportStates and on the nonce/provenance model; states merged on (model, nonces, cipher keys); plus, unmerged, ~1450 sequences per configuration in which every in-order delivery is preceded by an ordered pair of rejected deliveries and buffers are roomy / exactly payload-sized / in between"
     ));
     let cfgs = configs();
     cfgs.par_iter().for_each(|(cfg, sender, label)| {
@@ -105,6 +168,7 @@ pub fn run(tier: Tier) -> i32 {
         let r = seqmc::explore(s.clone());
         absorb(&ctx, &s, &r, label);
     });
+    cfgs.iter().for_each(|(cfg, sender, label)| after_rejection_sweep(&ctx, cfg, *sender, label));
     // cross-check that merging hides nothing: every sequence up to depth 3 (4 thorough), unmerged
     let ud = if ctx.quick() { 3 } else { 4 };
     let (cfg0, sender0, _) = &cfgs[0];
